@@ -265,3 +265,61 @@ def mon_aux_lifetime(prog, rr):
                         probs.append(("aux-open-at-main-exit",
                                       "tick %d main %s.%s exit actions ran while aux %s frames %r still entered" % (k, framer, frame, aux, sorted(openf))))
     return probs
+
+
+# ------------------------------------------------------------------------------- C10
+
+def mon_suspend(prog, rr, envf=None):
+    """While a conditional auxiliary stays running through a whole tick: it runs (recur) in that tick
+    regardless of its condition, frames strictly below its main frame get no recur and no transition
+    evaluation (precur) events, and the main frame's clauses after the `aux ... if` line are skipped.
+    At the tick it starts and keeps running: entered + recurred once, lower frames not recurred.
+    At the tick it completes: it is fully exited and the lower frames run again (recur) without being
+    re-entered, unless the main framer changes outline in that same tick."""
+    probs = []
+    fms = fm_index(prog)
+    for (fname, main, aux) in cond_aux_sites(prog):
+        fm = fms[fname]
+        axm = fms[aux]
+        for k, snap in enumerate(rr.ticks):
+            by = snap_by_name(snap)
+            prev = snap_by_name(rr.ticks[k - 1]) if k > 0 else None
+            a_now = by[aux][4] is not None
+            a_prev = prev is not None and prev[aux][4] is not None
+            m_now = by[fname]
+            evs = rr.events[k]
+            if m_now[4] is None:
+                continue
+            full = lang.outline(fm, m_now[4])
+            if main not in full:
+                continue
+            below = full[full.index(main) + 1:]
+            m_prev = prev[fname] if prev else None
+            same_outline = m_prev is not None and m_prev[4] == m_now[4] and not any(
+                e[0] == fname and e[2] in ("enter", "exit") for e in evs)
+            if a_prev and a_now and same_outline:
+                if not any(e[0] == aux and e[2] == "recur" for e in evs):
+                    probs.append(("running-cond-aux-not-run", "tick %d aux %s running but no recur event" % (k, aux)))
+                bad = [e for e in evs if e[0] == fname and e[1] in below and e[2] in ("recur", "precur")]
+                if bad:
+                    probs.append(("suspended-frame-ran", "tick %d frames below %s ran while aux %s suspends them: %r" % (k, main, aux, bad)))
+                if any(e[0] == fname and e[1] == main and e[3] == main + ".pz" for e in evs):
+                    probs.append(("later-clause-not-skipped", "tick %d clause after `aux %s if` in %s evaluated while aux running" % (k, aux, main)))
+            if (not a_prev) and a_now and same_outline:
+                want = [f for f in lang.outline(axm, lang.first_of(axm))]
+                got = [e[1] for e in evs if e[0] == aux and e[2] == "enter"]
+                if got != want:
+                    probs.append(("cond-aux-not-entered-at-first", "tick %d aux %s entered %r expected %r" % (k, aux, got, want)))
+                if [e for e in evs if e[0] == aux and e[2] == "recur"].__len__() != len(want):
+                    probs.append(("cond-aux-first-run-count", "tick %d aux %s recur events %r" % (k, aux, [e for e in evs if e[0] == aux and e[2] == "recur"])))
+                bad = [e for e in evs if e[0] == fname and e[1] in below and e[2] == "recur"]
+                if bad:
+                    probs.append(("suspended-frame-ran", "tick %d aux %s started but lower frames still recurred: %r" % (k, aux, bad)))
+            if a_prev and (not a_now) and same_outline:
+                openx = [e for e in evs if e[0] == aux and e[2] == "exit"]
+                if not openx:
+                    probs.append(("completed-cond-aux-not-exited", "tick %d aux %s completed without exit events" % (k, aux)))
+                for f in below:
+                    if not any(e[0] == fname and e[1] == f and e[2] == "recur" for e in evs):
+                        probs.append(("lower-frame-not-resumed", "tick %d aux %s completed but %s did not recur in the same tick" % (k, aux, f)))
+    return probs
